@@ -383,13 +383,22 @@ def r19_7_concreteness_predicate(repo: Repo, rep: Report):
 def r19_8_code_slice_zero_pad(repo: Repo, rep: Report):
     rep.rule("R19.8", "code slices go through ByteVec.slice (zero padding past the end); the fast path only serves in-range reads")
     m, fn = repo.fn("contract.Contract.slice")
+    from hsa.origin import origin_text
+
     for q in ("contract.Contract.slice", "contract.Contract.unwrapped_slice"):
         mm, f = repo.fn(q)
-        fast = [r for r in body_walk(f) if isinstance(r, ast.Return) and "_fastcode[" in src(r.value)]
-        for r in fast:
-            gs = guard_set(mm, r)
-            ok = any(g.replace(" ", "") in ("stop<len(self._fastcode)", "stop<=len(self._fastcode)") for g in gs)
-            rep.check("R19.8", ok, mm, r, f"{src(r)} under {sorted(gs)}", "fast path must be limited to stop within the concrete prefix")
+        # every Python slice of the raw concrete prefix (directly or through a local alias): Python truncates at the
+        # end where the EVM pads with zeros, so the read must be guarded to lie inside the prefix
+        raw = [
+            n for n in body_walk(f)
+            if isinstance(n, ast.Subscript) and isinstance(n.slice, ast.Slice) and origin_text(mm, f, n.value).replace("$", "") == "self._fastcode"
+        ]
+        for n in raw:
+            gs = {guard_text(ast.parse(origin_text(mm, f, t).replace("$", ""), mode="eval").body, pol).replace(" ", "") for t, pol in guards_at(mm, n)}
+            upper = origin_text(mm, f, n.slice.upper).replace("$", "").replace(" ", "") if n.slice.upper is not None else None
+            ok = upper is not None and any(g in (f"{upper}<len(self._fastcode)", f"{upper}<=len(self._fastcode)") for g in gs)
+            rep.check("R19.8", ok, mm, n, f"{q}: {src(n)} under {sorted(gs)}", "a raw slice of the concrete prefix must be limited to reads that end inside it (Python truncates, the EVM zero-pads)")
+        rep.check("R19.8", len(raw) == 1, mm, f, f"{q}: {len(raw)} raw slice(s) of the concrete prefix", "fast path vanished or duplicated")
         slow = [r for r in body_walk(f) if isinstance(r, ast.Return) and "self._code.slice(start, stop)" in src(r.value)]
         rep.check("R19.8", bool(slow), mm, f, f"{q}: falls back to self._code.slice(start, stop)", "no zero-padding fallback")
     stops = [s for s in body_walk(fn) if isinstance(s, ast.Assign) and src(s.targets[0]) == "stop"]
